@@ -892,3 +892,63 @@ M('C18','heapkey-reversed','runtime/timed/heapkey.go','''	if time.Time(t).Before
 M('C18','heap-swap-no-index','ds/generalheap/generalheap.go','''	h[i], h[j] = h[j], h[i]
 	h[i].index, h[j].index = i, j''','''	h[i], h[j] = h[j], h[i]''','heap/index-maintained ds/generalheap.Heap.Swap')
 M('C18','heap-less-reversed','ds/generalheap/generalheap.go','return h[i].Key.CompareTo(h[j].Key) < 0','return h[i].Key.CompareTo(h[j].Key) > 0','heap/index-maintained ds/generalheap.Heap.Less')
+
+# ---------------- C20
+M('C20','cancel-before-wait','app/daemon/daemon.go','''				// wait for every worker in the previous shutdown priority to terminate
+				d.wgPerSameShutdownOrder[prevPriority].Wait()
+				prevPriority = worker.shutdownOrder''','''				prevPriority = worker.shutdownOrder''','stop/wait-before-cancel-lower-order')
+M('C20','no-final-wait','app/daemon/daemon.go','''		// wait for the last priority to finish
+		d.wgPerSameShutdownOrder[prevPriority].Wait()
+	}
+}''','''	}
+}''','stop/final-wait')
+M('C20','sort-ascending','app/daemon/daemon.go','return d.workers[d.shutdownOrderWorker[i]].shutdownOrder > d.workers[d.shutdownOrderWorker[j]].shutdownOrder','return d.workers[d.shutdownOrderWorker[i]].shutdownOrder < d.workers[d.shutdownOrderWorker[j]].shutdownOrder','order/sorted-descending')
+M('C20','stopped-check-unlocked','app/daemon/daemon.go','''	// check again under the lock: shutdown sets the flag while holding the lock, so a worker is either registered
+	// before the shutdown takes its snapshot or it is refused.
+	if d.IsStopped() {
+		return ErrDaemonAlreadyStopped
+	}
+''','','reg/atomic-with-shutdown app/daemon.OrderedDaemon.BackgroundWorker')
+M('C20','stopped-set-unlocked','app/daemon/daemon.go','''	d.lock.Lock()
+	d.stopped.Store(true)
+	d.lock.Unlock()
+''','''	d.stopped.Store(true)
+''','reg/atomic-with-shutdown app/daemon.OrderedDaemon.shutdown')
+M('C20','done-after-cleanup','app/daemon/daemon.go','''		shutdownOrderWaitGroup.Done()
+
+		// now we can acquire the lock and cleanup the worker
+		d.cleanupWorker(name)
+''','''		// now we can acquire the lock and cleanup the worker
+		d.cleanupWorker(name)
+		shutdownOrderWaitGroup.Done()
+''','worker/done-cleanup-order')
+M('C20','wg-add-in-goroutine','app/daemon/daemon.go','''	shutdownOrderWaitGroup.Add(1)
+
+	worker.running.Store(true)
+	go func() {''','''	worker.running.Store(true)
+	go func() {
+		shutdownOrderWaitGroup.Add(1)''','wg/add-before-go')
+M('C20','shutdown-not-once','app/daemon/daemon.go','''func (d *OrderedDaemon) ShutdownAndWait() {
+	d.stopOnce.Do(d.shutdown)''','''func (d *OrderedDaemon) ShutdownAndWait() {
+	d.shutdown()''','shutdown/single-shot app/daemon.OrderedDaemon.ShutdownAndWait')
+M('C20','running-names-unlocked','app/daemon/daemon.go','''func (d *OrderedDaemon) GetRunningBackgroundWorkers() []string {
+	d.lock.RLock()
+	defer d.lock.RUnlock()
+''','''func (d *OrderedDaemon) GetRunningBackgroundWorkers() []string {
+''','lock/guarded-by')
+M('C20','not-running-skip-cancel','app/daemon/daemon.go','''			if !worker.running.Load() {
+				worker.ctxCancel()
+
+				continue
+			}''','''			if !worker.running.Load() {
+				continue
+			}''','stop/every-worker-cancelled')
+M('C20','allow-overwrite-running','app/daemon/daemon.go','''		if exWorker.running.Load() {
+			return ierrors.Wrapf(ErrExistingBackgroundWorkerStillRunning, "%s is still running", name)
+		}
+''','''		_ = exWorker
+''','reg/running-name-refused')
+M('C20','no-sort-after-append','app/daemon/daemon.go','''	sort.Slice(d.shutdownOrderWorker, func(i, j int) bool {
+		return d.workers[d.shutdownOrderWorker[i]].shutdownOrder > d.workers[d.shutdownOrderWorker[j]].shutdownOrder
+	})
+''','','order/sorted-descending')
